@@ -10,11 +10,18 @@
 #    user shadowed by the hashed store (plaintext user next to hashed users) counts as matching: refusing it is fail
 #    closed and allowed.  Valid HTTP basic credentials on the WebSocket upgrade also count as presenting credentials.
 #  * user lists: none / one user without usable password / plaintext / bcrypt / plaintext + unusable / hashed + plaintext.
+#  * the server is long-lived: several connections follow each other on one running handler (scope hs-session), and
+#    whatever it remembers from an earlier, legitimate login must not admit a later client; credentials tried include
+#    the valid name / password bytes split at a different boundary, and every string literal of the implementation's
+#    source (as unknown-user password, known-user password, name and password).
 import vf, _socks5 as S
 
-DEVS = {"DevEmptyListDefaultsToNoAuth": "ExecRequiresAuth", "DevEmptyPasswordMatches": "ExecRequiresAuth"}
+DEVS = {"DevEmptyListDefaultsToNoAuth": "ExecRequiresAuth", "DevEmptyPasswordMatches": "ExecRequiresAuth",
+        "DevUnknownUserDummyPassword": "ExecRequiresAuth"}
+SESSION_DEVS = {"DevCredentialCacheCollision": "ExecRequiresAuth"}
 SITE = {"DevEmptyListDefaultsToNoAuth": "agent.buildSOCKS5Auth+socks5.NewHandler",
-        "DevEmptyPasswordMatches": "agent.buildSOCKS5Auth"}
+        "DevEmptyPasswordMatches": "agent.buildSOCKS5Auth",
+        "DevCredentialCacheCollision": "socks5.CredentialStore", "DevUnknownUserDummyPassword": "socks5.CredentialStore"}
 
 
 def judge(ctx, variant, mism, panics, devrel):
@@ -48,10 +55,18 @@ def run(ctx):
     paths, total, nedges, complete = S.all_programs(ideal.edges, cap=None if ctx.quick() else 100000, rng=ctx.rng)
     attacks = S.attack_paths(devrel, cap=None if ctx.quick() else 60000, rng=ctx.rng)
     programs = S.hs_programs(paths, attacks)
-    summ, mism, panics = S.hs_replay(ctx, "pipe", programs, "c21pipe")
+    summ, mism, panics = S.hs_replay(ctx, "pipe", programs, "c21pipe", dictionary="socks5" if ctx.quick() else "all")
     drift = judge(ctx, "pipe", mism, panics, devrel)
-    replayed = summ["programs"]
-    steps = summ["steps"]
+    # several connections, one after the other, on one running handler
+    sscope = "hs-session" if ctx.quick() else "hs-session3"
+    sideal, scaught, srel = S.model(ctx, sscope, S.HS_INVS, SESSION_DEVS)
+    spaths, stotal, sedges, scomplete = S.all_programs(sideal.edges, cap=None if ctx.quick() else 60000, rng=ctx.rng)
+    sprogs = S.hs_programs(spaths, S.attack_paths(srel, cap=None if ctx.quick() else 30000, rng=ctx.rng))
+    ssumm, smism, spanics = S.hs_replay(ctx, "pipe", sprogs, "c21session")
+    drift += judge(ctx, "pipe-session", smism, spanics, srel)
+    caught.update(scaught)
+    replayed = summ["programs"] + ssumm["programs"]
+    steps = summ["steps"] + ssumm["steps"]
     extra = {}
     if not ctx.quick():
         # the same server construction behind real TCP and behind the WebSocket listener
@@ -119,6 +134,9 @@ def run(ctx):
                  replayed_steps=steps, executed_commands=summ["executed"], replay_mismatches=len(mism), deviation_scenarios_run=summ["attack_programs"],
                  trace_events=tsum["events"], trace_executed=tsum["executed"], trace_accepted=v["accepted"],
                  deviations_caught=caught, fuzz=fuzz,
+                 session_states=sideal.distinct, session_transitions=sedges, session_programs=ssumm["programs"],
+                 session_programs_in_model=stotal, credential_dictionary_literals=summ["dictionary_literals"],
+                 credential_dictionary_runs=summ["dictionary_runs"],
                  samples=[{"program": [s["tok"] for s in programs[len(programs) // 3]["steps"]],
                            "cfg": programs[len(programs) // 3]["cfg"]},
                           {"trace_events": v["events"][1:5]}], **extra)
